@@ -105,4 +105,5 @@ void run_graded ();     // c15_e.cpp
 void run_affine ();     // c15_e.cpp
 void run_cvertex ();    // c15_e.cpp
 void run_farsphere ();  // c15_e.cpp
+void run_dirty ();      // c15_dirty.cpp
 } // namespace c15
